@@ -9,12 +9,14 @@ use emulator_2a_lib::runner::{RunExpectationsBuilder, RunnerConfigBuilder, Verif
 use mc::{Ctx, Json};
 use std::collections::BTreeMap;
 
-const PROGS: [(&str, &str); 5] = [
+const PROGS: [(&str, &str); 6] = [
     ("runs-forever", "#! mrasm\nL:\n INC R0\n ST (0xFF), R0\n JR L\n"),
     ("stops-early", "#! mrasm\n LD R0, 5\n ST (0xFE), R0\n STOP\n LD R0, 9\n ST (0xFE), R0\nE:\n JR E\n"),
     ("errors-early", "#! mrasm\n LD R0, 3\n ST (0xFF), R0\n LDSP 0xD5\n NOP\n"),
     ("isr", "#! mrasm\n JR M\n INC R1\n ST (0xFE), R1\n RETI\nM:\n LDSP 0xEF\n BITS (0xF9), 1\n EI\nL:\n INC R0\n ST (0xFF), R0\n JR L\n"),
     ("input-dependent", "#! mrasm\n LD R0, (0xFC)\n LD R1, (0xFD)\n ADD R0, R1\n ST (0xFF), R0\n LD R2, (0xF0)\n ST (0xFE), R2\n STOP\n"),
+    // the board's status register (jumpers, UIO pins, comparators against DAC = 0 V) and FE/FF inputs on the outputs
+    ("board-dependent", "#! mrasm\n LD R0, (0xF1)\n ST (0xFF), R0\n LD R1, (0xFE)\n LD R2, (0xFF)\n SUB R1, R2\n ST (0xFE), R1\n STOP\n"),
 ];
 
 fn configs() -> Vec<MachineConfig> {
@@ -22,6 +24,9 @@ fn configs() -> Vec<MachineConfig> {
         MachineConfig::default(),
         MachineConfig { input_fc: 10, input_fd: 42, input_fe: 1, input_ff: 255, digital_input1: 0x5A, ..Default::default() },
         MachineConfig { input_fc: 200, input_fd: 100, temp: 6.5, analog_input1: f32::NAN, analog_input2: 2.5, jumper1: true, jumper2: true, universal_input_output1: true, universal_input_output3: true, digital_input1: 0xFF, ..Default::default() },
+        // asymmetric: a swapped pair of settings must show
+        MachineConfig { input_fe: 9, input_ff: 4, analog_input1: 1.0, jumper2: true, universal_input_output2: true, ..Default::default() },
+        MachineConfig { input_fe: 3, input_ff: 200, temp: 0.5, jumper1: true, universal_input_output3: true, ..Default::default() },
     ]
 }
 
@@ -331,6 +336,22 @@ fn invocations(dir: &std::path::Path) -> Vec<Inv> {
     // board flags
     let cfg = MachineConfig { temp: 1.5, analog_input1: 4.0, analog_input2: 9.0, jumper1: true, jumper2: true, universal_input_output1: true, universal_input_output2: true, universal_input_output3: true, digital_input1: 0x21, ..Default::default() };
     v.push(mk("board flags".into(), 4, &files[4].1, 90, cfg, ["--temp", "1.5", "--ai1", "4", "--ai2", "9", "--j1", "--j2", "--uio1", "--uio2", "--uio3", "--di1", "0x21"].iter().map(|s| s.to_string()).collect(), vec![], vec![], None));
+    // every board / input flag on its own, on the program that shows the board status and FE-FF
+    for (flags, cfg) in [
+        (vec!["--j1"], MachineConfig { jumper1: true, ..Default::default() }),
+        (vec!["--j2"], MachineConfig { jumper2: true, ..Default::default() }),
+        (vec!["--uio1"], MachineConfig { universal_input_output1: true, ..Default::default() }),
+        (vec!["--uio2"], MachineConfig { universal_input_output2: true, ..Default::default() }),
+        (vec!["--uio3"], MachineConfig { universal_input_output3: true, ..Default::default() }),
+        (vec!["--ai1", "0.5"], MachineConfig { analog_input1: 0.5, ..Default::default() }),
+        (vec!["--ai2", "0.5"], MachineConfig { analog_input2: 0.5, ..Default::default() }),
+        (vec!["--temp", "0.5"], MachineConfig { temp: 0.5, ..Default::default() }),
+        (vec!["--fe", "9"], MachineConfig { input_fe: 9, ..Default::default() }),
+        (vec!["--ff", "9"], MachineConfig { input_ff: 9, ..Default::default() }),
+        (vec!["--fe", "0x10", "--ff", "0b11"], MachineConfig { input_fe: 16, input_ff: 3, ..Default::default() }),
+    ] {
+        v.push(mk(format!("board-dependent {:?}", flags), 5, &files[5].1, 90, cfg, flags.iter().map(|s| s.to_string()).collect(), vec![], vec![], None));
+    }
     // failures: missing file, unparsable program
     v.push(Inv { args: vec!["run".into(), missing.clone(), "10".into()], expect: None, name: "missing file".into() });
     v.push(Inv { args: vec!["run".into(), bad_file.display().to_string(), "10".into()], expect: None, name: "unparsable program".into() });
@@ -424,7 +445,15 @@ pub fn run() {
     let mut jobs = vec![];
     for p in 0..PROGS.len() {
         for c in 0..cfgs.len() {
+            // the two asymmetric configurations matter for the programs that look at inputs / the board
+            if c >= 3 && p < 4 {
+                continue;
+            }
             for n in 0..=max_n {
+                // the straight-line programs 4 and 5 (they stop after ~40 cycles) get a thinner budget grid
+                if p >= 4 && quick && !(n <= 2 || n % 8 == 0) {
+                    continue;
+                }
                 jobs.push((p, c, n));
             }
             if p == 3 {
@@ -542,7 +571,7 @@ pub fn run() {
     ctx.set("distinct_nontrivial", distinct);
     ctx.set("rule", "schedule = (program, configuration, budget N, multiset of interrupt cycles, multiset of reset cycles); every schedule of the stated families is run through RunnerConfig::run and through REF-RUN (the statement's loop on the public Machine API): emulated_cycles and the final Machine (PartialEq) must agree; RunExpectations::verify over all 2^3 stated-field subsets x match/mismatch values on 4 final machines; process level: stdout values and exit status of the real binary per invocation");
     ctx.set("exhaustive", true);
-    ctx.set("bounds", format!("5 programs x 3 configurations x budgets 0..={} (+90/120/150 for the ISR program); interrupt cycles: all subsets of {{0,1,2,5,N-1,N,N+3}} + all sub-multisets (multiplicity <= 2) of {{1,5,N-1,N/2,N}}, each also in reverse order; reset cycles: all subsets of {} + sub-multisets of {{0,5,N-1}}; {} verify() cases; {} process invocations", max_n, if quick { "{0,5,N-1,N}" } else { "{0,1,5,N-1,N,N+3}" }, nexp, nproc));
+    ctx.set("bounds", format!("6 programs x 3-5 configurations x budgets 0..={} (+90/120/150 for the ISR program); interrupt cycles: all subsets of {{0,1,2,5,N-1,N,N+3}} + all sub-multisets (multiplicity <= 2) of {{1,5,N-1,N/2,N}}, each also in reverse order; reset cycles: all subsets of {} + sub-multisets of {{0,5,N-1}}; {} verify() cases; {} process invocations", max_n, if quick { "{0,5,N-1,N}" } else { "{0,1,5,N-1,N,N+3}" }, nexp, nproc));
     ctx.set("library_runs", runs);
     ctx.set("verify_cases", nexp);
     ctx.set("process_invocations", nproc);
